@@ -1,13 +1,17 @@
 /- Driver commands `au.*`: authenticator-level ceremonies (C04, C05, C07, C08, C11, CTAP halves of C02/C03/C09). -/
 import PasskeyVerif.Driver.AuthText
 import PasskeyVerif.Spec.Auth
+import PasskeyVerif.Model.AuthCancel
 namespace PasskeyVerif.Driver.Auth
 open PasskeyVerif PasskeyVerif.Auth PasskeyVerif.Driver.AuthText
 open PasskeyVerif.AuthData (Bytes)
 
+/-- the AAGUID the harness configures (harness/src/util.rs `AAGUID`) -/
+def harnessAaguid : Bytes := [0xA1, 0xA2, 0xA3, 0xA4, 0xB1, 0xB2, 0xC1, 0xC2, 0xD1, 0xD2, 0xE1, 0xE2, 0xE3, 0xE4, 0xE5, 0xE6]
+
 structure St where
   prop : String := ""
-  cfg : Cfg := ⟨List.replicate 16 0, [-7], false, 16, none⟩
+  cfg : Cfg := ⟨harnessAaguid, [-7], false, 16, none⟩
   store : Store := ⟨.memoryMap, [], 0, []⟩
   /-- the implementation's store as last observed (the Spec's "store before") -/
   implStore : List PkSnap := []
@@ -64,6 +68,11 @@ def verdict (st : St) (env : Spec.Env) (op : Spec.OpReq) (o : Obs) (twinKey : Op
       | .make r => Spec.c11_make env r o
       | .get _ => Spec.c11_get env o
     (if ok then "ok" else "fail:user-handle-stored-or-returned-not-iff-discoverable-under-store-capability", st.twins)
+  else if st.prop = "C07" then
+    let r := match op with
+      | .make r => Spec.c07_make env r o
+      | .get _ => Spec.c07_get env o
+    ((match r with | none => "ok" | some f => "fail:" ++ f), st.twins)
   else if st.prop = "C09" then
     let r := match op with
       | .make r => Spec.c09_make env r o
@@ -76,7 +85,7 @@ def step (st : St) (op : List String) (impl : String) : St × String :=
   | ["au.reset", prop, kind, ctr, idlen, hm] =>
     match parseKind kind, parseBit ctr, idlen.toNat?, parseHm hm with
     | some k, some c, some n, some h =>
-      ({ prop := prop, cfg := ⟨List.replicate 16 0, [-7], c, clampIdLen n, h⟩, store := ⟨k, [], 0, []⟩, implStore := [], twins := st.twins }, "-\tna")
+      ({ prop := prop, cfg := ⟨harnessAaguid, [-7], c, clampIdLen n, h⟩, store := ⟨k, [], 0, []⟩, implStore := [], twins := st.twins }, "-\tna")
     | _, _, _, _ => (st, "bad-op\tna")
   | "au.load" :: f =>
     match parsePasskey f with
@@ -95,8 +104,17 @@ def step (st : St) (op : List String) (impl : String) : St × String :=
       let s0 := { st.store with calls := 0, faults := faults }
       let out := makeCredential st.cfg uv s0 (draws.getD emptyDraws) req
       let mo := obsOfMake out
-      match cancel with
-      | some _ => (st, impl ++ "\tna")      -- cancellation: judged by C07 (see Driver for `au.*c`)
+      match cancel.filter (fun k => k - 1 < out.trace.length) with
+      | some k =>
+        -- dropped after k polls: the first k-1 suspension points were passed
+        let co := obsCancelled st.store.kind st.store.items out.trace (k - 1)
+        let env : Spec.Env := ⟨st.cfg, st.store.kind, uv, st.implStore, faults.any Option.isSome⟩
+        let items' := applyEvents st.store.kind st.store.items (out.trace.take (k - 1))
+        match parseObs true impl with
+        | none => ({ st with store := { st.store with items := items' } }, showObs co ++ "\tfail:unparsable-or-crashed")
+        | some io =>
+          let (v, tw') := verdict st env (.make req) io tw
+          ({ st with store := { st.store with items := items' }, implStore := io.store, twins := tw' }, showObs co ++ "\t" ++ v)
       | none =>
         let model := showObs mo
         let env : Spec.Env := ⟨st.cfg, st.store.kind, uv, st.implStore, faults.any Option.isSome⟩
@@ -114,8 +132,16 @@ def step (st : St) (op : List String) (impl : String) : St × String :=
     | some (req, uv, faults, cancel) =>
       let s0 := { st.store with calls := 0, faults := faults }
       let out := getAssertion st.cfg uv s0 req
-      match cancel with
-      | some _ => (st, impl ++ "\tna")
+      match cancel.filter (fun k => k - 1 < out.trace.length) with
+      | some k =>
+        let co := obsCancelled st.store.kind st.store.items out.trace (k - 1)
+        let env : Spec.Env := ⟨st.cfg, st.store.kind, uv, st.implStore, faults.any Option.isSome⟩
+        let items' := applyEvents st.store.kind st.store.items (out.trace.take (k - 1))
+        match parseObs false impl with
+        | none => ({ st with store := { st.store with items := items' } }, showObs co ++ "\tfail:unparsable-or-crashed")
+        | some io =>
+          let (v, tw') := verdict st env (.get req) io tw
+          ({ st with store := { st.store with items := items' }, implStore := io.store, twins := tw' }, showObs co ++ "\t" ++ v)
       | none =>
         let env : Spec.Env := ⟨st.cfg, st.store.kind, uv, st.implStore, faults.any Option.isSome⟩
         match parseObs false impl with
